@@ -50,6 +50,12 @@ CHECKS = {
     "C30": ("cases", "model_checking", "TLA+ Styles.tla (Assign, ReadBack, NoAliasing) with TLC; every assignment sequence replayed on set_cell_style / set_row_style / set_column_style and read back",
             "All sequences of 2 (quick) / 3 (thorough) assignments over 4 targets x 18 styles; 7 reads (targets and untouched probes) compared after each step, and again after a binary reload.",
             "Style pool chosen so that each attribute is varied alone.", "4 C30"),
+    "C08": ("cases", "exploration", "TLA+ Finite.tla supplies the case space (argument-class vectors x result shapes) and the invariant; the harness crosses it with all built-in functions and operators and scans every stored number",
+            "~1100 (vector, shape) cases x ~485 functions + operators per run; every cell of the workbook checked with f64::is_finite after evaluation; typed overflow numbers too.",
+            "No semantic oracle comes from the specification (there is no arithmetic to model): level exploration.", "4 C08"),
+    "C11": ("cases", "exploration", "TLA+ Tokens.tla enumerates token sequences (60 spellings, length <= 3); each is passed to the lexer/parser, completion, F4 cycling, number formatter and cell input under catch_unwind and a watchdog",
+            "All sequences of length <= 2 plus 12 000 sampled of length 3 (quick) / all of length 3 (thorough) x 7 APIs x 3 (thorough 30) language/locale pairs.",
+            "Oracle is 'returns'; formulas with a range operator are not evaluated (whole-column arrays do not finish).", "4 C11"),
 }
 
 
@@ -87,7 +93,7 @@ def main():
         "engines": [
             {"name": "history", "path": "spec/History.tla, spec/MC_History.tla, spec/TraceHistory.tla, bin/fam_history.py, harness/src/{world,histrec,ops,gen,project}.rs", "serves_properties": ["C01", "C02", "C03", "C04", "C26"], "kind_free_text": "TLC model checking + bidirectional conformance"},
             {"name": "selection", "path": "spec/Selection.tla, spec/MC_Selection.tla, spec/TraceSelection.tla, harness/src/behreplay.rs", "serves_properties": ["C28"], "kind_free_text": "TLC model checking + bidirectional conformance"},
-            {"name": "cases", "path": "spec/{Calendar,Grid,Lang,F4,NumberInput,NumberFormat}.tla, bin/fam_cases.py, harness/src/cases.rs", "serves_properties": ["C09", "C29", "C30", "C19", "C20", "C21", "C22", "C23", "C34"], "kind_free_text": "TLC case enumeration with expected results, replayed on the implementation"},
+            {"name": "cases", "path": "spec/{Calendar,Grid,Lang,F4,NumberInput,NumberFormat}.tla, bin/fam_cases.py, harness/src/cases.rs", "serves_properties": ["C08", "C09", "C11", "C29", "C30", "C19", "C20", "C21", "C22", "C23", "C34"], "kind_free_text": "TLC case enumeration with expected results, replayed on the implementation"},
             {"name": "structure", "path": "spec/TraceWellFormed.tla", "serves_properties": ["C27"], "kind_free_text": "TLC trace validation of a state predicate"},
         ],
         "checks": checks,
